@@ -53,6 +53,8 @@ func init() {
 			return chainCase(r, strings.Join(f, " "), x, steps)
 		case "render":
 			return replayers["render"](r, f)
+		case "special":
+			return arrfSpecial(r, f[1])
 		}
 		return "bad-op"
 	}
@@ -950,6 +952,19 @@ func arrfStream(r *Run) {
 			}
 		}
 	}
+	// (0) corpus: the inputs of the repaired defects, then Go values the codec cannot spell
+	for _, c := range corpusLines("arrf") {
+		if f := strings.Fields(c); len(f) >= 2 && r.Mine() {
+			r.Count("gen=corpus")
+			r.Emit(c, replayers["arrf"](r, f))
+		}
+	}
+	for _, name := range arrfSpecials {
+		if r.Mine() {
+			r.Count("gen=special")
+			r.Emit("special "+name, arrfSpecial(r, name))
+		}
+	}
 	// (1) all arrays of length 0..4 over the nine-element universe
 	u := arrElemUniverse()
 	calls := stdArrCalls()
@@ -1199,3 +1214,39 @@ func repName(v *V) string {
 	return string(v.Kind)
 }
 
+
+// ---- Go values outside the codec ----------------------------------------------------------------
+
+// definedKey is a defined string type: a map[definedKey]any has key kind String, but a plain string
+// is not assignable to its key type.
+type definedKey string
+
+var arrfSpecials = []string{"sort-defined-string-key", "sort_natural-defined-string-key", "map-defined-string-key"}
+
+// arrfSpecial runs a case on a Go value the value codec has no spelling for. Its result line is the
+// constant "bad-op" (what the model driver answers to a `special` line); the oracle does the work.
+func arrfSpecial(r *Run, name string) string {
+	line := "special " + name
+	a := []any{map[definedKey]any{"name": "b"}, map[definedKey]any{"name": "a"}, map[definedKey]any{"other": 1}}
+	filter := strings.SplitN(name, "-", 2)[0]
+	src := "x | " + filter + ": 'name' | map: 'name' | join: ','"
+	if filter == "map" {
+		src = "x | map: 'name' | join: ','"
+	}
+	out, err, panicked := evalOn(src, map[string]any{"x": a})
+	switch {
+	case panicked:
+		r.Violate("C15", "panic", line, "{{ "+src+" }} with x = []any{map[K]any{name: b}, map[K]any{name: a}, map[K]any{other: 1}}, type K string: "+firstLine(lastPanic))
+	case err != nil:
+		r.Violate("C15", "array-receiver-rejected", line, "{{ "+src+" }} with maps keyed by a defined string type: "+err.Error())
+	default:
+		want := "a,b"
+		if filter == "map" {
+			want = "b,a"
+		}
+		if fmt.Sprint(out) != want {
+			r.Violate("C15", filter, line, fmt.Sprintf("{{ %s }} with maps keyed by a defined string type: expected %q, got %q", src, want, fmt.Sprint(out)))
+		}
+	}
+	return "bad-op"
+}
